@@ -30,12 +30,15 @@ impl super::GetFrameType for NewTokenFrame {
 
 impl super::EncodeSize for NewTokenFrame {
     fn max_encoding_size(&self) -> usize {
-        // token's length could not exceed 20
-        1 + 1 + self.token.len()
+        self.encoding_size()
     }
 
     fn encoding_size(&self) -> usize {
-        1 + 1 + self.token.len()
+        // the token length is written as a varint: one byte only below 64
+        1 + VarInt::try_from(self.token.len())
+            .expect("token length must be less than 2^62")
+            .encoding_size()
+            + self.token.len()
     }
 }
 
